@@ -224,6 +224,51 @@ pub fn run(tier: &str) -> i32 {
         all.merge(Acc::merge_all(accs));
     }
 
+    // ---- the registered claim types made with `Default::default()` (another typed route besides From / TryFrom):
+    //      the claim appears under its registered name, and replaces an earlier value given through From
+    {
+        use crate::adapter::{BEvent, BOp, ClaimSpec, Layer, Out, PEvent, POp};
+        let mut acc = Acc::default();
+        for p in { let mut v = vec![Proto::workhorse(), Proto::V2P.or_workhorse()]; v.sort(); v.dedup(); v } {
+            crate::adapter::freeze_default_clock();
+            let key = crate::domains::key_pool(p)[0].clone();
+            for k in ["iss", "sub", "aud", "jti", "exp", "nbf", "iat"] {
+                for earlier in [false, true] {
+                    let mut ops: Vec<BOp> = vec![BOp::Claim(ClaimSpec::auto("other", json!(1)))];
+                    if earlier {
+                        ops.push(BOp::Claim(ClaimSpec::auto(k, json!(if matches!(k, "exp" | "nbf" | "iat") { "2999-01-01T00:00:00Z" } else { "earlier" }))));
+                    }
+                    ops.push(BOp::Claim(ClaimSpec { key: k.to_string(), value: Value::Null, form: Form::RegisteredDefault }));
+                    ops.push(BOp::Build);
+                    let (ev, _) = crate::adapter::with_rng_script(vec![vec![3u8; 32]], || crate::adapter::build_history(p, Layer::Generic, &key.sk, &ops));
+                    acc.executions += 1;
+                    let got = match ev.last() {
+                        Some(BEvent::Built(Out::Ok(t))) => match crate::adapter::parse_history(p, Layer::Generic, false, &[key.pk.clone()], &[t.clone()], &[POp::Parse(0, 0)]).last() {
+                            Some(PEvent::Parsed(Out::Ok(v), _)) => Some(v.clone()),
+                            _ => None,
+                        },
+                        _ => None,
+                    };
+                    let ok = got.as_ref().map_or(false, |v| {
+                        let m = v.get(k);
+                        v.as_object().map_or(0, |o| o.len()) == 2 && m.map_or(false, |x| x.is_string()) && (!earlier || m != Some(&json!("earlier")) && m != Some(&json!("2999-01-01T00:00:00Z")))
+                    });
+                    if ok {
+                        acc.controls_ok += 1;
+                        acc.bump("registered-default:present");
+                    } else {
+                        acc.violate(
+                            format!("C14|{}|registered-claim-through-default|{}", p.name(), k),
+                            format!("set_claim(<{} claim type>::default()){}; build; parse -> {:?}: expected the members \"other\" and {:?} (the default value, as a string)", k, if earlier { " after an earlier value for the same claim" } else { "" }, got, k),
+                            json!({"hostile_key": format!("registered-default {}", k)}),
+                        );
+                    }
+                }
+            }
+        }
+        all.merge(acc);
+    }
+
     // ---- long histories: one key set N times (the last value wins), set N times then removed (absent), and N
     //      distinct keys (all present), for N on both sides of powers of two
     {
